@@ -665,8 +665,30 @@ func ruleOffsetCapture(c *core.Ctx, rule string) {
 		g := fn.Graph()
 		info := fn.Info()
 		length := localVar(fn, "length", 0)
+		// the computations may sit in a helper that was folded in: then the variable is a
+		// copy (of a copy) of the helper's variables, whose definitions are the computations
+		var compDefs []*core.V
+		seenObj := map[types.Object]bool{}
+		var collect func(obj types.Object, depth int)
+		collect = func(obj types.Object, depth int) {
+			if obj == nil || seenObj[obj] || depth < 0 {
+				return
+			}
+			seenObj[obj] = true
+			for _, dv := range defVertices(g, obj) {
+				rhs, found := rhsFor(info, dv, obj)
+				if found && rhs != nil {
+					if inner, isVar := core.ObjOf(info, rhs).(*types.Var); isVar && !inner.IsField() && inner.Pkg() != nil && inner.Parent() != inner.Pkg().Scope() {
+						collect(inner, depth-1)
+						continue
+					}
+				}
+				compDefs = append(compDefs, dv)
+			}
+		}
+		collect(length, 3)
 		var defs []*core.V
-		for _, dv := range defVertices(g, length) {
+		for _, dv := range compDefs {
 			if as, ok := dv.AST.(*ast.AssignStmt); ok {
 				defs = append(defs, dv)
 				o.At(fn.Site(as, "length := "+core.ExprStr(as.Rhs[0])))
@@ -713,7 +735,12 @@ func ruleOffsetCapture(c *core.Ctx, rule string) {
 		for _, s := range sets {
 			o.At(fn.Site(s.Call, "Set"))
 			if core.ObjOf(info, s.Call.Args[0]) != length {
-				o.Fail("placeholder is set to %s instead of the computed length", core.ExprStr(s.Call.Args[0]))
+				if id, isID := ast.Unparen(s.Call.Args[0]).(*ast.Ident); isID && id.Name == "length" {
+					// the variable of the same role in another scope (helper folded in twice)
+					o.Unrec("placeholder is set to %s: not connected with the computed length", core.ExprStr(s.Call.Args[0]))
+				} else {
+					o.Fail("placeholder is set to %s instead of the computed length", core.ExprStr(s.Call.Args[0]))
+				}
 			}
 			if g.PathExists(end, s.V, nil) {
 				o.Fail("placeholder set after endstream")
@@ -781,8 +808,47 @@ func ruleXRefStreamRows(c *core.Ctx, rule string) {
 				}
 			}
 			if mx == nil {
-				o.Fail("the width of field %s is not (bits.Len64(maximum)+7)/8", k)
+				o.Unrec("the width of field %s is not computed as (bits.Len64(maximum)+7)/8 in this function: where the width comes from is not followed", k)
 				continue
+			}
+			// the maximum may be handed over by a folded-in helper (maxField2, maxField3 = a, b):
+			// follow plain copies to the variable the loop updates
+			for steps := 0; steps < 3; steps++ {
+				var src types.Object
+				n, inL := 0, false
+				for _, dv := range defVertices(g, mx) {
+					if inLoop[dv] {
+						inL = true
+					}
+					as, ok := dv.AST.(*ast.AssignStmt)
+					if !ok {
+						if vs, isVS := dv.AST.(*ast.ValueSpec); isVS && len(vs.Values) == 0 {
+							continue
+						}
+						if ds, isDS := dv.AST.(*ast.DeclStmt); isDS {
+							_ = ds
+							continue
+						}
+						n += 2
+						continue
+					}
+					n++
+					if len(as.Lhs) == len(as.Rhs) {
+						for j, l := range as.Lhs {
+							if core.ObjOf(info, l) == mx {
+								if so, isVar := core.ObjOf(info, as.Rhs[j]).(*types.Var); isVar && !so.IsField() {
+									if _, isID := ast.Unparen(as.Rhs[j]).(*ast.Ident); isID {
+										src = so
+									}
+								}
+							}
+						}
+					}
+				}
+				if inL || n != 1 || src == nil {
+					break
+				}
+				mx = src
 			}
 			// updates of the maximum inside the sizing loop: mx = f under f > mx, or mx = max(mx, f)
 			var f types.Object
@@ -837,7 +903,27 @@ func ruleXRefStreamRows(c *core.Ctx, rule string) {
 				}
 			}
 			if f == nil || len(updates) == 0 {
-				o.Fail("no update of the maximum of field %s from the field value found in the sizing loop", k)
+				// never assigned in the loop, and not the result of a helper either: the
+				// maximum does not depend on the entries at all
+				inLoopDefs, viaHelper := 0, false
+				for _, dv := range defVertices(g, mx) {
+					if inLoop[dv] {
+						inLoopDefs++
+					}
+					if dv.AST == nil {
+						continue
+					}
+					for _, cs := range core.CallsIn(info, dv.AST, false) {
+						if callee := core.Callee(info, cs.Call); callee != nil && callee.Pkg() == fn.Obj.Pkg() {
+							viaHelper = true
+						}
+					}
+				}
+				if inLoopDefs == 0 && !viaHelper {
+					o.FailAt(fn.Site(head.AST, ""), "the maximum of field %s is never updated from the entries: the width of the field does not depend on the values written into it", k)
+					continue
+				}
+				o.Unrec("no update of the maximum of field %s from the field value was found in the sizing loop (computed by a helper?)", k)
 				continue
 			}
 			o.At(fn.Site(updates[0].AST, "max update "+k))
@@ -934,7 +1020,7 @@ func ruleXRefStreamRows(c *core.Ctx, rule string) {
 				}
 			}
 		}
-		o.Require(strings.Contains(core.ExprStr(head.Cond.Expr), "nextRef"), "the row loop is not bounded by nextRef")
+		o.Require(strings.Contains(core.ExprStr(head.Cond.Expr)+" "+resolveText(g, head, head.Cond.Expr, 3), "nextRef"), "the row loop is not bounded by nextRef")
 	})
 	c.Check(rule, "pdf.(*Writer).writeXRefStream/dict", "/W is [1 w2 w3], the predictor's Columns is 1+w2+w3, and /Type /Size /W /Filter /DecodeParms /Length (direct) are set before the stream is opened", func(o *core.Ob) {
 		keys := core.DictKeysWritten(info, fn.Decl, "pdf", "Dict")
@@ -958,7 +1044,11 @@ func ruleXRefStreamRows(c *core.Ctx, rule string) {
 		}
 		if s := keys["Size"]; len(s) == 1 {
 			if as, ok := s[0].(*ast.AssignStmt); ok {
-				o.Require(strings.Contains(core.ExprStr(as.Rhs[0]), "nextRef"), "/Size is not nextRef")
+				txt := core.ExprStr(as.Rhs[0])
+				if v := g.VertexOf(s[0]); v != nil {
+					txt += " " + resolveText(g, v, as.Rhs[0], 3)
+				}
+				o.Require(strings.Contains(txt, "nextRef"), "/Size is not nextRef")
 			}
 		}
 		if s := keys["Length"]; len(s) == 1 {
@@ -1022,7 +1112,10 @@ func ruleXRefStreamRows(c *core.Ctx, rule string) {
 		}
 		up := strings.ReplaceAll(init, " ", "") == "0" && (strings.ReplaceAll(cond, " ", "") == "i<w") && post == "++"
 		down := strings.ReplaceAll(init, " ", "") == "w-1" && (strings.ReplaceAll(cond, " ", "") == "i>=0") && post == "--"
-		o.Require(up || down, "byte loop is (%s; %s; %s), want w iterations", init, cond, post)
+		if !up && !down {
+			o.Unrec("byte loop is (%s; %s; %s): neither of the two known forms (0..w-1 up, w-1..0 down); what it writes is not decided", init, cond, post)
+			return
+		}
 		wb := 0
 		shiftOK := false
 		ast.Inspect(fs.Body, func(n ast.Node) bool {
@@ -1222,9 +1315,18 @@ func ruleObjStmHeader(c *core.Ctx, rule string) {
 		}
 		o.At(fn.Site(sx[0].Call, "setXRef"))
 		o.Require(g.Dominates(cc[0].V, sx[0].V), "members are registered before they are validated")
-		f := compositeFields(info, sx[0].Call.Args[1])
-		o.Require(f["InStream"] != nil && core.ExprStr(f["InStream"]) == "sRef", "member entries must point at the allocated object stream")
-		o.Require(f["Pos"] != nil && strings.Contains(core.ExprStr(f["Pos"]), "i"), "member entries must record the member index")
+		// the entry: a literal, or a struct (or a pointer to an element of a pre-allocated
+		// slice) whose fields are assigned before the call
+		earg := sx[0].Call.Args[1]
+		inS := fieldText(g, sx[0].V, earg, "InStream", 4)
+		posS := fieldText(g, sx[0].V, earg, "Pos", 4)
+		unresolved := func(t string) bool { return strings.HasSuffix(t, ".InStream") || strings.HasSuffix(t, ".Pos") }
+		if unresolved(inS) || unresolved(posS) {
+			o.Unrec("the fields of the member entry handed to setXRef (%s) are not followed to their values", core.ExprStr(earg))
+		} else {
+			o.Require(inS == "sRef", "member entries must point at the allocated object stream")
+			o.Require(posS != "<zero>" && regexp.MustCompile(`\bi\b`).MatchString(posS), "member entries must record the member index")
+		}
 		os := callVertices(g, "pdf.(*Writer).OpenStream")
 		o.Require(len(os) == 1 && core.ExprStr(os[0].Call.Args[0]) == "sRef", "the object stream is not written under the allocated reference")
 		// fallback
@@ -1624,8 +1726,33 @@ func ruleObjStmSlots(c *core.Ctx, rule string) {
 	c.Check(rule, "pdf.(*Writer).WriteCompressed/slots", "slot i of the object stream holds refs[i] and objects[i] (the index stored in the cross-reference entry): both slices are indexed only by loop positions or by N-1", func(o *core.Ob) {
 		fn := c.Prog.Func("pdf", "(*Writer).WriteCompressed")
 		info := fn.Info()
-		refs := paramObj(fn, "refs")
-		objects := paramObj(fn, "objects")
+		refs0 := paramObj(fn, "refs")
+		objects0 := paramObj(fn, "objects")
+		// the two slices, and the copies handed to helpers that were folded in
+		isRefs := map[types.Object]bool{refs0: true}
+		isObjects := map[types.Object]bool{objects0: true}
+		for round := 0; round < 2; round++ {
+			ast.Inspect(fn.Decl.Body, func(m ast.Node) bool {
+				as, ok := m.(*ast.AssignStmt)
+				if !ok || len(as.Lhs) != len(as.Rhs) {
+					return true
+				}
+				for i, l := range as.Lhs {
+					lo := core.ObjOf(info, l)
+					ro := core.ObjOf(info, as.Rhs[i])
+					if lo == nil || ro == nil || len(core.AssignsTo(info, fn.Decl, lo)) != 1 {
+						continue
+					}
+					if isRefs[ro] {
+						isRefs[lo] = true
+					}
+					if isObjects[ro] {
+						isObjects[lo] = true
+					}
+				}
+				return true
+			})
+		}
 		// position variables: key of `range N`, `range refs`, `range objects`, or counters of three-clause loops from 0
 		pos := map[types.Object]bool{}
 		nVars := map[types.Object]bool{}
@@ -1635,7 +1762,7 @@ func ruleObjStmSlots(c *core.Ctx, rule string) {
 				if x.Tok == token.DEFINE && len(x.Lhs) == 1 && len(x.Rhs) == 1 {
 					if call, ok := ast.Unparen(x.Rhs[0]).(*ast.CallExpr); ok {
 						if id, ok := call.Fun.(*ast.Ident); ok && id.Name == "len" && len(call.Args) == 1 {
-							if a := core.ObjOf(info, call.Args[0]); a == refs || a == objects {
+							if a := core.ObjOf(info, call.Args[0]); isRefs[a] || isObjects[a] {
 								nVars[core.ObjOf(info, x.Lhs[0])] = true
 							}
 						}
@@ -1660,11 +1787,15 @@ func ruleObjStmSlots(c *core.Ctx, rule string) {
 						isLen = true
 					}
 				}
-				if over == refs || over == objects || nVars[over] || isLen {
+				if isRefs[over] || isObjects[over] || nVars[over] || isLen {
 					pos[core.ObjOf(info, x.Key)] = true
 				} else if t := info.TypeOf(x.X); t != nil {
 					// a range over a parallel slice (one element per member, e.g. the recorded offsets) also counts positions
 					if _, isSlice := t.Underlying().(*types.Slice); isSlice {
+						pos[core.ObjOf(info, x.Key)] = true
+					}
+					// range over an integer (the number of members kept in a local or a field): counts positions
+					if b, isBasic := t.Underlying().(*types.Basic); isBasic && b.Info()&types.IsInteger != 0 {
 						pos[core.ObjOf(info, x.Key)] = true
 					}
 				}
@@ -1684,7 +1815,7 @@ func ruleObjStmSlots(c *core.Ctx, rule string) {
 				return true
 			}
 			base := core.ObjOf(info, ix.X)
-			if base != refs && base != objects {
+			if !isRefs[base] && !isObjects[base] {
 				return true
 			}
 			n++
@@ -1703,6 +1834,9 @@ func ruleObjStmSlots(c *core.Ctx, rule string) {
 							return true
 						}
 					}
+					// N-1 with the number of members kept somewhere this rule does not follow (a field)
+					o.Unrec("%s: %s: whether %s is the number of members is not followed", c.Prog.Pos(ix.Pos()), c.Prog.Src(ix), core.ExprStr(be.X))
+					return true
 				}
 			}
 			o.FailAt(fn.Site(ix, ""), "%s: %s is not indexed by a slot position: the members are written in another order than the one registered in the cross-reference entries (which store the slot index)", c.Prog.Pos(ix.Pos()), c.Prog.Src(ix))
